@@ -267,3 +267,111 @@ Section Unique.
     rewrite MO in HU. exact HU.
   Qed.
 End Unique.
+
+(* ------------------------------------------------------------------ round 4: the sharper relation (vector length, 67 prefix) *)
+Lemma parts_compat2 m h rest r s r2 :
+  head_ok m r h = true -> sdec_tail m h (shape_of_row m r h) rest = Some (s, r2) -> tail_ok m r s = true ->
+  row_compat2 h (modrm_key h rest) r = true.
+Proof.
+  intros Eh Et Eo.
+  destruct (sdec_tail_head _ _ _ _ _ _ Et) as [Hp [Hk [HL [Hb Hz]]]].
+  pose proof (head_ok_kind _ _ _ Eh) as Hrk.
+  unfold row_compat2. unfold tail_ok in Eo.
+  repeat match type of Eo with (_ && _) = true => apply andb_prop in Eo; destruct Eo as [Eo ?] end.
+  apply andb_true_intro. split.
+  - destruct (r_kind r =? 3) eqn:E3; [|reflexivity].
+    apply Z.eqb_eq in E3. rewrite Hrk in E3.
+    destruct (rh_kind h) eqn:EK; cbn [kind_code] in E3; try discriminate.
+    match goal with HL' : match s_kind s with _ => _ end = true |- _ => rewrite Hk in HL'; cbv beta iota in HL'; rename HL' into HE end.
+    rewrite <- Hb, <- HL.
+    destruct (r_modrm r) eqn:Erm.
+    + destruct (sdec_tail_key _ _ _ _ _ _ Et Erm) as [reg [isreg [rm [Ek Hs]]]]. rewrite Ek. cbn [key_isreg]. rewrite andb_true_r.
+      destruct (s_modrm s); [contradiction | |].
+      * destruct Hs as [-> _]. destruct (s_b s); cbn [andb] in *.
+        -- apply andb_prop in HE. destruct HE as [_ HE]. exact HE.
+        -- apply andb_prop in HE. destruct HE as [HE _]. apply andb_prop in HE. destruct HE as [HE _]. exact HE.
+      * destruct Hs as [-> _]. rewrite andb_false_r in *.
+        apply andb_prop in HE. destruct HE as [HE _]. apply andb_prop in HE. destruct HE as [HE _]. exact HE.
+    + rewrite andb_false_r. rewrite andb_false_r.
+      assert (Hn : match s_modrm s with MReg _ _ => true | _ => false end = false).
+      { unfold sdec_tail in Et. unfold shape_of_row in Et. destruct (dec_modrm m h _ rest) as [[mp r1]|] eqn:Ed; [|discriminate].
+        destruct (le_take _ r1) as [[imm r3]|]; [|discriminate]. inversion Et; subst. cbn [s_modrm assemble].
+        unfold dec_modrm in Ed. cbn [sh_modrm] in Ed. rewrite Erm in Ed. inversion Ed; subst. reflexivity. }
+      rewrite Hn in HE. rewrite andb_false_r in HE.
+      apply andb_prop in HE. destruct HE as [HE _]. apply andb_prop in HE. destruct HE as [HE _]. exact HE.
+  - rewrite <- Hp. assumption.
+Qed.
+
+Lemma compat2_overlap h k r1 r2 : row_compat2 h k r1 = true -> row_compat2 h k r2 = true -> extra_overlap r1 r2 = true.
+Proof.
+  unfold row_compat2, extra_overlap. intros H1 H2.
+  apply andb_prop in H1. destruct H1 as [L1 A1]. apply andb_prop in H2. destruct H2 as [L2 A2].
+  apply andb_true_intro. split.
+  - destruct (r_kind r1 =? 3); [|reflexivity]. destruct (r_kind r2 =? 3); [|reflexivity]. cbn [negb orb].
+    destruct (r_modrm r1), (r_modrm r2); cbn [Bool.eqb negb orb]; try reflexivity;
+      rewrite ?andb_true_r, ?andb_false_r in *;
+      destruct (rh_b h && key_isreg k);
+      destruct (r_l r1 =? 3) eqn:X1; try reflexivity; destruct (r_l r2 =? 3) eqn:X2; try reflexivity; cbn [orb] in *;
+      rewrite ?orb_false_r in *; apply Z.eqb_eq in L1, L2; apply Z.eqb_eq; congruence.
+  - destruct (has_mem_operand r1); [reflexivity|]. destruct (has_mem_operand r2); [reflexivity|]. cbn [orb] in *.
+    eapply eqb_trans3; eassumption.
+Qed.
+
+Lemma opspec_eqb_eq a b : opspec_eqb a b = true -> a = b.
+Proof.
+  unfold opspec_eqb. intros H. bsp.
+  repeat match goal with
+         | X : Bool.eqb _ _ = true |- _ => apply Bool.eqb_prop in X
+         | X : (_ =? _) = true |- _ => apply Z.eqb_eq in X
+         end.
+  destruct a, b; cbn in *; subst; reflexivity.
+Qed.
+
+Lemma ops_eqb_eq : forall a b, ops_eqb a b = true -> a = b.
+Proof.
+  induction a as [|x a IH]; destruct b as [|y b]; cbn; intros H; try discriminate; [reflexivity|].
+  apply andb_prop in H. destruct H as [H1 H2]. apply opspec_eqb_eq in H1. rewrite H1, (IH _ H2). reflexivity.
+Qed.
+
+Section UniqueOps.
+  Variable bucket : Z -> list row.
+  Variable exceptions : list Z.
+  Hypothesis Hsame : forall o, bucket_same_ops exceptions (bucket o) = true.
+
+  (* two denotations of the same bytes by rows of the same mnemonic: the rows have the SAME operand specifications (so the operands are
+     read from the same fields in the same way), unless the mnemonic is on the reviewed list *)
+  Theorem denote_unique_ops : forall m bs rid1 ops1 dd1 len1 rid2 ops2 dd2 len2,
+    In (rid1, ops1, dd1, len1) (denote bucket m bs) -> In (rid2, ops2, dd2, len2) (denote bucket m bs) ->
+    exists r1 r2 h, In r1 (bucket (rh_opc h)) /\ In r2 (bucket (rh_opc h)) /\ r_id r1 = rid1 /\ r_id r2 = rid2 /\
+                    extra_overlap r1 r2 = true /\
+                    (r_name r1 = r_name r2 -> existsb (Z.eqb (r_name r1)) exceptions = false -> r_ops r1 = r_ops r2).
+  Proof.
+    intros m bs rid1 ops1 dd1 len1 rid2 ops2 dd2 len2 H1 H2.
+    destruct (denote_sound bucket _ _ _ _ _ _ H1) as [h [rest [r1 [s1 [t1 [Eh [I1 [Id1 [Ho1 [Et1 [To1 [[o1 [Mo1 _]] _]]]]]]]]]]]].
+    destruct (denote_sound bucket _ _ _ _ _ _ H2) as [h' [rest' [r2 [s2 [t2 [Eh' [I2 [Id2 [Ho2 [Et2 [To2 [[o2 [Mo2 _]] _]]]]]]]]]]]].
+    rewrite Eh in Eh'. inversion Eh'; subst h' rest'.
+    pose proof (compat_overlap _ _ _ _ _ (parts_compat _ _ _ _ _ _ _ Ho1 Et1 To1 Mo1) (parts_compat _ _ _ _ _ _ _ Ho2 Et2 To2 Mo2)) as CO.
+    pose proof (compat2_overlap _ _ _ _ (parts_compat2 _ _ _ _ _ _ Ho1 Et1 To1) (parts_compat2 _ _ _ _ _ _ Ho2 Et2 To2)) as XO.
+    assert (MO : may_overlap r1 r2 = true).
+    { unfold may_overlap. rewrite CO. cbn [andb].
+      destruct (same_static_shape r1 r2) eqn:Es; [|reflexivity]. cbn [negb orb].
+      destruct (r_suffix r1 <? 0) eqn:S1; [reflexivity|]. destruct (r_suffix r2 <? 0) eqn:S2; [reflexivity|]. cbn [orb].
+      rewrite (shape_same m h _ _ Es) in Et1. rewrite Et1 in Et2. inversion Et2; subst s2 t2.
+      unfold tail_ok in To1, To2.
+      assert (X1 : (r_suffix r1 <? 0) || (s_imm s1 =? r_suffix r1) = true) by (bsp; assumption).
+      assert (X2 : (r_suffix r2 <? 0) || (s_imm s1 =? r_suffix r2) = true) by (bsp; assumption).
+      rewrite S1 in X1. rewrite S2 in X2. cbn [orb] in X1, X2. apply Z.eqb_eq in X1, X2. apply Z.eqb_eq. congruence. }
+    exists r1, r2, h. repeat split; auto.
+    intros Hn Hx.
+    pose proof (Hsame (rh_opc h)) as HU. unfold bucket_same_ops in HU.
+    rewrite forallb_forall in HU. specialize (HU r1 I1). rewrite forallb_forall in HU. specialize (HU r2 I2).
+    rewrite MO, XO, Hx in HU. apply Z.eqb_eq in Hn. rewrite Hn in HU. cbn in HU. apply ops_eqb_eq. exact HU.
+  Qed.
+End UniqueOps.
+
+Lemma guarded_same_ops (f : Z -> list row) ex : forallb (fun o => bucket_same_ops ex (f o)) (zrange 256) = true ->
+  forall o, bucket_same_ops ex (if zin 0 o 256 then f o else []) = true.
+Proof.
+  intros H o. destruct (zin 0 o 256) eqn:E; [|reflexivity].
+  apply zin_spec in E. rewrite forallb_forall in H. apply H. apply zrange_in. cbn. lia.
+Qed.
